@@ -394,6 +394,17 @@ WorkerOn(p) == dcur = p /\ dpc \in {"kids", "kts", "kdel", "kmark"}
 ChildrenFollowDone ==
   \A c \in Ids : (IsChild(c) /\ pset[c] /\ status[Parent[c]] = "deleted" /\ ~WorkerOn(Parent[c])) => status[c] \in Tomb
 
+(* the worker's children list: every bound child that is not yet deleted -   *)
+(* live, or queued (a child created while the parent was tombstoned is       *)
+(* queued in the head storage only and is in no in-memory queue, so nothing  *)
+(* else deletes it in this session) - is taken, and each taken child is      *)
+(* deleted before the worker goes on                                         *)
+StepKidsHandled ==
+  /\ (last'.a = "DKids" /\ dpc = "kids") =>
+        \A c \in Children(dcur) : (pset[c] /\ status[c] \in {"live", "queued"}) => (dk' = c \/ c \in dkids')
+  /\ (dpc \in {"kdel", "kmark"} /\ dk # None /\ last'.a \in {"DDel", "DMark"} /\ last'.i = dk) => status'[dk] = "deleted"
+KidsHandled == [][StepKidsHandled]_vars
+
 (* restart keeps every tombstone, reloads both in-memory sets from it and     *)
 (* does not advertise a tombstoned id                                         *)
 StepSurvivesRestart ==
